@@ -15,11 +15,11 @@ func ruleC13(r *Report) {
 	p := r.P
 	r.Trusted("goxmldsig v1.4.0 (SignEnveloped, SignString, method/key handling)", "crypto/rsa, crypto/ecdsa", "go/ssa of golang.org/x/tools v0.29.0")
 	r.NotDecided("that the signatures verify (cryptography; canonical Element() output); correspondence of the configured key and certificate")
-	r.Rule("C13.method-key", "GetSigningContext: each RSA method requires an *rsa.PrivateKey, each ECDSA method an *ecdsa.PrivateKey, any other method is an error, SetSignatureMethod's error is an error; the context is made from sp.Key and a chain starting with sp.Certificate", 12)
-	r.Rule("C13.always-signed", "when a signature method is configured, every message constructor returns only objects on which its Sign* step succeeded (POST AuthnRequest, LogoutRequest, LogoutResponse, ArtifactResolve), and the redirect URL carries the signature", 5)
-	r.Rule("C13.enveloped", "each Sign* stores as Signature the last child of SignEnveloped(X.Element()) under err == nil, and every Element() builder re-embeds the stored Signature", 8)
-	r.Rule("C13.signed-octets", "the string given to SignString is emitted unchanged, followed only by &Signature=..., and consists of exactly SAMLRequest=<escaped>[&RelayState=<escaped>]&SigAlg=<escaped>", 2)
-	r.Rule("C13.metadata", "SP metadata publishes a use=signing key descriptor built from sp.Certificate whenever a signature method is configured (no other condition), and AuthnRequestsSigned accordingly", 3)
+	r.Rule("C13.method-key", "GetSigningContext: each RSA method requires an *rsa.PrivateKey, each ECDSA method an *ecdsa.PrivateKey, any other method is an error, SetSignatureMethod's error is an error; the context is made from sp.Key and a chain starting with sp.Certificate", 6)
+	r.Rule("C13.always-signed", "when a signature method is configured, every message constructor returns only objects on which its Sign* step succeeded (POST AuthnRequest, LogoutRequest, LogoutResponse, ArtifactResolve), and the redirect URL carries the signature", 2)
+	r.Rule("C13.enveloped", "each Sign* stores as Signature the last child of SignEnveloped(X.Element()) under err == nil, and every Element() builder re-embeds the stored Signature", 6)
+	r.Rule("C13.signed-octets", "the string given to SignString is emitted unchanged, followed only by &Signature=..., and consists of exactly SAMLRequest=<escaped>[&RelayState=<escaped>]&SigAlg=<escaped>", 1)
+	r.Rule("C13.metadata", "SP metadata publishes a use=signing key descriptor built from sp.Certificate whenever a signature method is configured (no other condition), and AuthnRequestsSigned accordingly", 1)
 
 	checkMethodKey(r, p)
 	checkAlwaysSigned(r, p)
